@@ -80,30 +80,13 @@ def run(prog, tier):
     chk.floor('syntactic writes classified', nwrites, 600)
 
     # alias-resolved stores (E1): a local pointer that holds the address of a library object
-    summ = Summaries(prog, skip=('CompoundParserSimple', 'add_compound_data'))
-    gset = set(globs)
     nst = 0
-    for name in sorted(summ.paths):
-        f = summ.funcs[name]
-        seen = set()
-        for p in summ.paths[name]:
-            for e in p.events:
-                if e.kind != 'store':
-                    continue
-                ids = set(re.findall(r'[A-Za-z_]\w*', e.lv or ''))
-                hit = sorted(x for x in ids & gset if not x.startswith('__'))
-                # a read of a table inside an index expression is not a write to it: the written object is the leading one
-                lead = re.match(r'^[\*\(&]*([A-Za-z_]\w*)', e.lv or '')
-                leadname = lead.group(1) if lead else None
-                if leadname in gset:
-                    key = (e.node.get('ln'), leadname)
-                    if key in seen:
-                        continue
-                    seen.add(key)
-                    nst += 1
-                    allowed = MUTATORS.get(name) == leadname
-                    chk.decide(allowed, 'write-target', f['unit'], name, 'store@%s' % (e.lv[:60]), '%s:%d' % (f['rel'], e.node.get('ln', 0)),
-                               'a store reaches the library object %s through %s' % (leadname, e.lv[:80]), why='documented mutator of %s' % leadname)
+    for name, f, leadname, e in alias_stores(prog, globs):
+        nst += 1
+        allowed = MUTATORS.get(name) == leadname
+        chk.decide(allowed, 'write-target', f['unit'], name, 'store@%s' % (e.lv[:60]), '%s:%d' % (f['rel'], e.node.get('ln', 0)),
+                   'a store reaches the library object %s through %s' % (leadname, e.lv[:80]), why='documented mutator of %s' % leadname)
+    gset = set(globs)
     # table-derived pointers handed to callees
     for name, f in sorted(funcs.items()):
         for c in [n for n in walk(f['body']) if n.get('k') == 'CallExpr' and n.get('callee') in funcs]:
@@ -248,6 +231,36 @@ def no_overwrite_diagnostic(prog, chk, tier):
     if not bad:
         chk.ok('no-stderr-diagnostic', 'all functions', 'no path stores an error into a slot that may already hold one (%d path families)' % n, 'src')
     chk.floor('error-setting path families examined', n + len(bad), 300)
+
+
+def alias_stores(prog, globs):
+    """Stores that reach a file-scope object through a local alias, from the store events of every abstract path: a local pointer that
+    holds the address of a library object, or the result of bsearch/lfind (a pointer INTO the array that was searched).
+    Yields (function name, function, name of the object written, store event), one per (line, object)."""
+    summ = Summaries(prog, skip=('CompoundParserSimple', 'add_compound_data'))
+    gset = set(globs)
+    for name in sorted(summ.paths):
+        f = summ.funcs[name]
+        seen = set()
+        for p in summ.paths[name]:
+            for e in p.events:
+                if e.kind != 'store':
+                    continue
+                # a read of a table inside an index expression is not a write to it: the written object is the leading one
+                lead = re.match(r'^[\*\(&]*([A-Za-z_]\w*)', e.lv or '')
+                leadname = lead.group(1) if lead else None
+                if leadname in ('bsearch', 'lfind'):
+                    for e2 in p.events:
+                        if e2.kind == 'call' and e2.name == leadname and e2.result is not None and e2.result.canon() in (e.lv or '') and len(e2.args) > 1 and e2.args[1] is not None:
+                            l2 = re.match(r'^[\*\(&]*([A-Za-z_]\w*)', e2.args[1].canon())
+                            if l2:
+                                leadname = l2.group(1)
+                if leadname in gset and not leadname.startswith('__'):
+                    key = (e.node.get('ln'), leadname)
+                    if key in seen:
+                        continue
+                    seen.add(key)
+                    yield name, f, leadname, e
 
 
 def failed_mutators(prog, chk, tier):
